@@ -24,6 +24,11 @@ type propConfig struct {
 	Sweep      []string // function-key substrings for the zero-annotation safety sweep
 	SweepSkip  []string
 	Structural []string // names of structural checks
+	// SafetyOnly: for functions that are under contract for other
+	// properties, only the run-time safety obligations are kept here (their
+	// functional obligations are discharged by those properties' checks and
+	// are assumed in this one)
+	SafetyOnly bool
 	Explain    string
 	Assume     []string
 }
@@ -209,6 +214,7 @@ func cmdCheck(args []string) {
 		fmt.Printf("  all units encoded at %.1fs\n", time.Since(t0).Seconds())
 	}
 	// zero-annotation sweep
+	nSweep, nSafetyOnly := 0, 0
 	if len(cfg.Sweep) > 0 {
 		var keys []string
 		for k := range v.fnByKey {
@@ -217,7 +223,7 @@ func cmdCheck(args []string) {
 		sort.Strings(keys)
 		for _, k := range keys {
 			fn := v.fnByKey[k]
-			if seen[k] || !v.inRepo(fn) || fn.Blocks == nil || fn.Synthetic != "" {
+			if seen[k] || !v.inRepo2(fn) || fn.Blocks == nil || fn.Synthetic != "" {
 				continue
 			}
 			if !matchAny(k, cfg.Sweep) || matchAny(k, cfg.SweepSkip) {
@@ -227,8 +233,27 @@ func cmdCheck(args []string) {
 			if con != nil && (con.NoSweep || con.Trusted) {
 				continue
 			}
+			if con == nil && fn.Parent() != nil && !closureEscapes(fn) {
+				continue // called in place: verified as part of its parent
+			}
 			seen[k] = true
+			v.sweepMode = con == nil
 			u := v.verifyFunc(fn, con)
+			v.sweepMode = false
+			if con != nil && cfg.SafetyOnly {
+				var keep []*Obligation
+				for _, o := range u.Obls {
+					switch o.Kind {
+					case "nopanic", "pre", "fieldinv", "mapinv", "chaninv", "typestate", "captures", "contract-binding":
+						keep = append(keep, o)
+					}
+				}
+				u.Obls = keep
+				u.Covers = nil
+				nSafetyOnly++
+			} else {
+				nSweep++
+			}
 			units = append(units, u)
 			funcsUnder = append(funcsUnder, funcDisplayName(fn))
 		}
@@ -390,6 +415,9 @@ func cmdCheck(args []string) {
 		"lemmas":                   len(lemmaRes),
 		"structural":               len(structRes),
 		"regexps_translated":       v.regexUsed,
+	}
+	if len(cfg.Sweep) > 0 {
+		cov["sweep"] = map[string]any{"functions_without_contract": nSweep, "contract_functions_safety_obligations_only": nSafetyOnly, "packages": cfg.Sweep, "skipped": cfg.SweepSkip}
 	}
 	ev := evidence{PropertyID: *prop, Tier: *tier, Seed: seed, Level: level, Coverage: cov, Assumptions: assumptions, WallS: round2(time.Since(t0).Seconds()), Violations: len(violations)}
 	if !*noEvidence {
